@@ -1,5 +1,5 @@
 import LoraVerif.Props.TieA.HandleRx
-import LoraVerif.Props.TieA.C08
+import LoraVerif.Gen.UplinkStatic
 import LoraVerif.Gen.SessionMacs
 /-!
 # Tie A for `Session::handle_downlink_macs` + `push_answer` (session.rs; C08) — the per-command dispatch
@@ -199,13 +199,24 @@ def StepTie (snr : Int) (x : Nat × List Nat) : Prop :=
           = some ({ gs with uplink := { gs.uplink with pending := pend' } }, g', c'.region, c'.full, cm, n, rfu) ∧
         c'.pending = Rx.natsOf pend' ∧ c'.cfg = Rx.cfgOf g' ∧ pend'.length ≤ 15
 
+/-- `DevStatusAnsCreator::set_margin` on −32..=31 (as `C08.tieA_devStatusMargin`; restated here so that the
+properties that import this file — C05/C06/C07 through `HandleRxFull.lean` — do not inherit the generated units of
+`Props/TieA/C08.lean`) -/
+theorem margin_byte (snr : Int) (h : -32 ≤ snr ∧ snr ≤ 31) :
+    Gen.UplinkStatic.DevStatusAnsCreator.set_margin.byte snr = some (some (devStatusMargin snr : Int)) := by
+  have all : ∀ k : Fin 64,
+      Gen.UplinkStatic.DevStatusAnsCreator.set_margin.byte ((k.val : Int) - 32) =
+        some (some (devStatusMargin ((k.val : Int) - 32) : Int)) := by decide +kernel
+  have := all ⟨(snr + 32).toNat, by omega⟩
+  have e : (((snr + 32).toNat : Nat) : Int) - 32 = snr := by omega
+  simpa only [e] using this
+
 /-- the margin byte the creator ends with, for every `snr` -/
 theorem set_margin_eq (snr : Int) (b : Int) :
     ∃ r, Gen.SessionMacs.DevStatusAnsCreator.set_margin ⟨b, 0⟩ snr = some (r, ⟨b, (devStatusMargin snr : Int)⟩) := by
   unfold Gen.SessionMacs.DevStatusAnsCreator.set_margin
   by_cases h : -32 ≤ snr ∧ snr ≤ 31
-  · have := (C08.tieA_devStatusMargin snr (by omega)).1
-    rw [this, if_pos h]
+  · rw [margin_byte snr h]
     exact ⟨_, rfl⟩
   · have hb : Gen.UplinkStatic.DevStatusAnsCreator.set_margin.byte snr = some none := by
       unfold Gen.UplinkStatic.DevStatusAnsCreator.set_margin.byte
@@ -393,21 +404,11 @@ theorem tieA_push_answer (u : Gen.SessionRx.Uplink) (full : Bool) (cmd : Gen.Ses
       (c.push cmd.cid.toNat (TieA.Rx.natsOf cmd.payload_bytes)).region = c.region :=
   push_tie u full cmd hlen hq hpl c hp hf
 
-/-
-FULL STATEMENT (not reached in the time box — missing: the RXParamSetupReq arm, the LinkADRReq block arm with the
-`for` loop of identical answers, and the induction over the command list that composes the arms):
+/- The full statement builder R left here (`tieA_handle_downlink_macs`) is proved by builder S in
+`Props/TieA/HandleMacsLoop.lean` (the RXParamSetupReq arm: `HandleMacsRxParam.lean`; the LinkADRReq block arm:
+`HandleMacsAdr.lean`; the induction over the command list: `loop_tie`). -/
 
-theorem tieA_handle_downlink_macs (snr : Int) (cmds : List (Nat × List Nat)) (hw : ∀ x ∈ cmds, WfCmd x)
-    (gs : Gen.SessionRx.Session) (g : Gen.SessionRx.Configuration) (rs : RegionState) (full : Bool)
-    (hq : gs.uplink.pending.length ≤ 15) (hn : cmds.length < 2147483647) :
-    match handleCmds snr cmds { cfg := cfgOf g, region := rs, pending := natsOf gs.uplink.pending, full := full } (channelMaskGet rs) false 0 with
-    | .error _ => Gen.SessionMacs.Session.handle_downlink_macs gs g rs (cmds.map (some ∘ decCmd)) snr full = none
-    | .ok c => ∃ pend' g', Gen.SessionMacs.Session.handle_downlink_macs gs g rs (cmds.map (some ∘ decCmd)) snr full
-          = some ({ gs with uplink := { gs.uplink with pending := pend' } }, g', c.region, c.full)
-        ∧ natsOf pend' = c.pending ∧ cfgOf g' = c.cfg
--/
-
-/-- builder R — `Session::handle_downlink_macs`, PARTIAL: one iteration of the regenerated dispatch loop
+/-- builder R — `Session::handle_downlink_macs`, the arms R proved (a lemma of `C08.tieA_handle_downlink_macs` now): one iteration of the regenerated dispatch loop
 (`Gen/SessionMacs.lean`: `while let Some(cmd) = cmd_iter.next()` as a recursion over the commands the iterator
 yields, the region's methods instantiated with the model's) is the model's arm of `handleCmds` (`stepModel`;
 `handleCmds_cons`: on a well-formed command that is not a LinkADRReq, `handleCmds` is that arm followed by the
